@@ -205,11 +205,34 @@ def _tail(stmts: list[ast.stmt], make_result) -> tuple[list[ast.stmt], bool]:
     return list(stmts), True
 
 
+def _genexp_to_yield(fn: ast.FunctionDef) -> None:
+    """`def _g(..): return (e for v in xs if c)` is the generator `for v in xs: if c: yield e` (both lazy, same items, same order)."""
+    body = _body_without_doc(fn)
+    if len(body) != 1 or not isinstance(body[0], ast.Return) or not isinstance(body[0].value, ast.GeneratorExp):
+        return
+    g = body[0].value
+    if len(g.generators) != 1 or g.generators[0].is_async:
+        return
+    gen = g.generators[0]
+    inner: ast.stmt = ast.copy_location(ast.Expr(value=ast.copy_location(ast.Yield(value=g.elt), g.elt)), body[0])
+    for c in reversed(gen.ifs):
+        inner = ast.copy_location(ast.If(test=c, body=[inner], orelse=[]), body[0])
+    loop = ast.copy_location(ast.For(target=gen.target, iter=gen.iter, body=[inner], orelse=[], type_comment=None), body[0])
+    for x in ast.walk(gen.target):
+        if isinstance(x, ast.Name):
+            x.ctx = ast.Store()
+    fn.body = [s_ for s_ in fn.body if s_ is not body[0]] + [loop]
+    ast.fix_missing_locations(fn)
+
+
 class Inliner:
     def __init__(self, tree: ast.Module):
         self.tree = tree
         self.helpers: dict[tuple[str | None, str], _Helper] = {}
         self.count = 0
+        for n in ast.walk(tree):
+            if isinstance(n, ast.FunctionDef) and n.name.startswith("_") and not n.name.startswith("__"):
+                _genexp_to_yield(n)
         for n in tree.body:
             if isinstance(n, ast.FunctionDef) and _Helper.eligible(n, None):
                 self.helpers[(None, n.name)] = _Helper(n, None)
